@@ -27,7 +27,7 @@ ASSUMPTIONS = ['operators whose third-party dependency is not installed are outs
 REQUIRED = ['entries-judged', 'binary:left-only-empty', 'binary:right-only-empty', 'binary:both-empty', 'reference-model-used',
             'generic-rule-used', 'explicit-expectation-used']
 EXHAUSTIVE = {'quick': True, 'thorough': True}
-SHAPES = ['lists', 'tuples', 'four-fields', 'generator', 'none-keys', 'chunked-sorts', 'method-form', 'blank-row']
+SHAPES = ['lists', 'tuples', 'four-fields', 'generator', 'none-keys', 'chunked-sorts', 'method-form', 'blank-row', 'composed']
 
 H3 = ('f0', 'f1', 'f2')
 
@@ -80,6 +80,9 @@ def _shape(table, shape, extra):
         return tuple(tuple(r) for r in t)
     if shape == 'generator':
         return probes.CountingSource(t)
+    if shape == 'composed':
+        # the input is itself the output of other operators: a header-only *view* (three stages deep), not a list
+        return petl.cut(petl.rowslice(petl.cat(t), None), *range(len(t[0])))
     return t
 
 
